@@ -15,6 +15,8 @@ type Spec struct {
 	Replay string `json:"replay,omitempty"`
 	// Verbose makes the child include config and choices in every END record.
 	Verbose bool `json:"verbose,omitempty"`
+	// GoMaxProcs, if > 0, is the GOMAXPROCS the driver starts the child with (not read by the child).
+	GoMaxProcs int `json:"gomaxprocs,omitempty"`
 }
 
 // Begin is printed (one line, prefixed "BEGIN ") before a run starts.
